@@ -55,7 +55,7 @@ def run(ctx):
         ow = [b for b, t in calls.items() if t['callee'].endswith("MutableTcpPacket::<'a>::owned")]
         ok = len(ow) == 1
         v = peel(tcp.argv(ow[0], 0), unwraps=False) if ok else None
-        ok = ok and is_call(v, r'vec::from_elem$') and const_val(v[2][0]) == 0 and is_call(peel(v[2][1]), r"TcpPacket::<'a>::minimum_packet_size$")
+        ok = ok and header_only(buf_segments(v), r"TcpPacket::<'a>::minimum_packet_size$")
         rep.check(r2, ok, 'synack:buffer', 'buffer <- %s' % (short(v) if v else None), tcp.loc(ow[0]) if ow else tcp.loc(h))
         fl = last_set_flags(tcp, h)
         rep.check(r2, [c for _, c in fl] == [0x12], 'synack:flags', 'last flags written: %s' % [hex(c) if c is not None else None for _, c in fl], tcp.loc(fl[0][0]) if fl else tcp.loc(h))
@@ -136,3 +136,9 @@ def run(ctx):
         hit = [(tcp.blocks[b]['term']['resolved'] or [''])[0] for b in bl if tcp.blocks[b]['term']['k'] == 'call']
         bad = [c for c in hit if c in TABLE_FNS or c == 'proto::repl' or c.endswith('Packet>::payload')]
         rep.check(r4, not bad, 'synack:stateless', 'calls on the SYN arm that touch state or payload: %s' % bad, tcp.loc(h))
+
+    # R5: the cookie exists for every port pair / address: generate() fails only for absent fields or mixed families
+    r5 = rep.rule('C06-R5', 'on any port: synackcookie::generate returns Err only when an endpoint field is absent or the two addresses are of different families - never depending on the value of a port or address', floor=1)
+    from rules import silence
+    silence.run_for(ctx, r5, ['synackcookie::generate'], silent='Err', loud='Ok')
+
